@@ -73,7 +73,7 @@ HeaderFilter(aid, h, add) == Can /\ (aid = 0 \/ Room("hmap")) /\ Step("action_he
 NoHeaders == 9999
 FilterCreate(a, hid) == Can /\ Room("filter") /\ Step("action_body_filter_create", <<a.id, hid>>,
                              \* the filter's kind records whether its HTML stage exists (a text/html content type was given)
-                             IF a.k = "filters" THEN {NewK("filter", IF hid = 0 \/ \E h \in Of("hmap") : h.id = hid /\ h.k = "html" THEN "html" ELSE "text")} ELSE {}, {})
+                             IF a.k \in {"filters", "html_only"} THEN {NewK("filter", IF hid = 0 \/ \E h \in Of("hmap") : h.id = hid /\ h.k = "html" THEN "html" ELSE "text")} ELSE {}, {})
 BufferCreate(p) == Can /\ Room("buffer") /\ Step("caller_buffer_create", <<p>>, {NewK("buffer", p)}, {})
 \* f = 0 stands for the NULL filter: the buffer is duplicated and stays with the caller
 \* (the answer remembers which payload it was made from: answers to different payloads are different states)
@@ -99,7 +99,8 @@ Next ==
   \/ \E r \in Of("request") : RequestSerialize(r) \/ RequestDrop(r) \/ CreateLog(r, 0)
                               \/ (\E a \in Of("action") : CreateLog(r, a.id))
                               \/ SetRemoteAddr(r, 0) \/ (\E p \in Of("proxies") : SetRemoteAddr(r, p.id))
-  \/ \E k \in {"redirect", "filters", "empty", "nul"} : ActionCreate(k)
+  \* ("html_only": body filters without a text stage: nothing is left to flush when such a filter is closed unfed or after a whole document)
+  \/ \E k \in {"redirect", "filters", "empty", "nul", "html_only"} : ActionCreate(k)
   \/ \E a \in Of("action") : ActionSerialize(a) \/ ActionStatus(a) \/ ActionLog(a) \/ ActionDrop(a)
                              \/ FilterCreate(a, 0) \/ FilterCreate(a, NoHeaders) \/ (\E h \in Of("hmap") : FilterCreate(a, h.id) \/ HeaderFilter(a.id, h, FALSE) \/ HeaderFilter(a.id, h, TRUE))
   \/ \E k \in {"empty", "two", "html", "bad"} : HmapCreate(k)
